@@ -1511,8 +1511,20 @@ void ExpandLine(char const* TokNam, unsigned TokenNum, as_dynstr_t* p_str) {
     (void)ReplaceLineUnchecked(p_str, Token, TokNam, True);
 }
 
-void KillCtrl(char* Line) {
-    char* z;
+void KillCtrl(as_dynstr_t* p_line) {
+    char * Line, *z;
+    size_t ExpLen = 0;
+
+    /* a tab becomes up to eight blanks: make room before expanding in place */
+
+    for (z = p_line->p_str; *z != '\0'; z++) {
+        ExpLen += (*z == Char_HT) ? 8 : 1;
+    }
+    if ((ExpLen + 1 > p_line->capacity)
+        && as_dynstr_realloc(p_line, as_dynstr_roundup_len(ExpLen))) {
+        return;
+    }
+    Line = p_line->p_str;
 
     if (*(z = Line) == '\0') {
         return;
